@@ -50,9 +50,9 @@ fn main() {
 		let sys2 = IndSys::new(&format!("{name}/deviation-2/default"), indicator_configs(Some(name), false), vec![ks[1]], vec![ks[1], ks[2], ks[3]], oracle, true);
 		h.go(&sys2, &Limits::deviation(if thorough { 3 } else { 2 }, if thorough { 60 } else { 36 }).wall_secs(600), true);
 		not_exercised.extend(sys.unexercised().into_iter().map(|s| format!("[deviation] {s}")));
-		// (4) tiny units: the same candles scaled by 2^-40 (guards written as `> 0` / `!= 0` must not become thresholds)
+		// (4) tiny units: the same candles scaled by 2^-60 (guards written as `> 0` / `!= 0` must not become thresholds)
 		{
-			let sc = (2.0f64).powi(if IS_F32 { -20 } else { -40 }) as ValueType;
+			let sc = (2.0f64).powi(if IS_F32 { -30 } else { -60 }) as ValueType;
 			let tiny: Vec<yata::core::Candle> = ks.iter().map(|c| yata::core::Candle { open: c.open * sc, high: c.high * sc, low: c.low * sc, close: c.close * sc, volume: c.volume }).collect();
 			let sys = IndSys::new(&format!("{name}/depth/tiny-units"), indicator_configs(Some(name), false), tiny[1..2].to_vec(), tiny.clone(), oracle, false);
 			h.go(&sys, &Limits::depth(if thorough { 5 } else { 4 }).wall_secs(600), true);
@@ -74,6 +74,12 @@ fn main() {
 				let sys = IndSys::new(&format!("{name}/deviation/float-parameters"), cfgs, vec![ks[1]], vec![ks[1], ks[2], ks[3]], oracle, true);
 				h.go(&sys, &Limits::deviation(if thorough { 2 } else { 1 }, if thorough { 400 } else { 300 }).wall_secs(600), true);
 			}
+		}
+		// (6) hundreds of swing highs / lows on one side of the slow averages: a zigzag on a steady trend
+		// (consecutive-peak counters, pivot rules, position counters) with at most one deviation
+		{
+			let sys = IndSys::new(&format!("{name}/deviation/zigzag-trend"), indicator_configs(Some(name), false), vec![ks[1]], vec![ks[1], ks[2]], oracle, true).with_zigzag();
+			h.go(&sys, &Limits::deviation(if thorough { 1 } else { 0 }, if thorough { 1200 } else { 640 }).wall_secs(600), true);
 		}
 	}
 	if !missing.is_empty() {
